@@ -8,24 +8,34 @@ LEVEL = "proof"
 READY = True
 MANIFEST = {
     "technique": "Coq proof on Gallina model (parametric hash) + differential correspondence evaluated in Coq with an in-Coq SHA-256",
-    "text": "ROOT clauses: the theorems are about a REFERENCE trie (textbook insert-with-split / delete-with-leaf-lifting over bit keys, "
-            "batches with first-occurrence-wins de-duplication, empty value = delete; SMT/Tree.v), NOT about a transcription of the Go "
-            "update path (updateSubtree/updateNode/calculateSubTree, bins, stub nodes, getSubtree, db.Set/db.Del): for every key length "
-            "and batch sequence the hash of the reference trie equals the LIP-0039 root of the resulting map, histories with the same "
-            "final map give the same root, the empty map gives the empty hash. For the GO CODE the clauses 'independent of order / "
-            "batching / overwrites / deletions / sub-tree layout' and 'a re-opened trie continues identically' are TESTED, not proved: "
-            "differential runs of the real trie against that proved reference and against smt_root after every batch, on two stores (a "
-            "map store, and batchdb over pebble with production semantics: reads never see the running batch, batch written between "
-            "Updates, trie re-created from the root) and two layouts (sub-tree height 8 and 4). PROOF clauses: smt.Verify is modelled "
+    "text": "ROOT clauses: (1) a REFERENCE trie (textbook insert-with-split / delete-with-leaf-lifting over bit keys, batches with "
+            "first-occurrence-wins de-duplication, empty value = delete; SMT/Tree.v): for every key length and batch sequence its hash "
+            "equals the LIP-0039 root of the resulting map, histories with the same final map give the same root, the empty map gives "
+            "the empty hash. (2) a LAYERED model of the Go update path and node store (SMT/Layered.v: sub-trees of height h stored under "
+            "their root hash as (structure, nodes), stubs, getSubtree, updateSubtree/updateNode with the direct cases, Del of the old "
+            "lower sub-tree before and Set of every new sub-tree after the recursive update, calculateSubTree's collapsing, Update's "
+            "de-duplication; state = (store, root hash), which is all a trie object holds) is PROVED to refine the reference trie for "
+            "every h > 0 (so 4 and 8), under an injective, domain-separated hash: from the empty trie every history runs without error, "
+            "the layered root is the LIP-0039 root of the map = the reference hash (hence independent of order / batching / overwrites / "
+            "deletions / sub-tree height), the store holds every sub-tree reachable from the current root (reading back through the "
+            "store yields a well-formed trie with exactly that map), and continuing from a re-opened (store, root) is the "
+            "uninterrupted run (C10_layered_refines, _reopen_continues, _layout_independent, _root_is_function_of_map). The layered "
+            "model is TIED to the code by store dumps: after every Update of small histories the real DB contents (sub-tree root hash "
+            "-> encoded sub-tree bytes) must equal the model's store entry by entry, and must contain every sub-tree reachable from "
+            "the root. Modelling abstractions that remain TESTED only: key bins read as key bits, left/right goroutines run left "
+            "first, the level-by-level loops of calculateSubTree/treeHasher (transcribed separately in SMT/LayeredFlat.v and "
+            "cross-run on every dump, not proved equal to the tree-recursive norm/shash), byte encoding, batchdb read semantics "
+            "(differential runs on batchdb over pebble). PROOF clauses: smt.Verify is modelled "
             "faithfully (Verify+CalculateRoot byte level) and proved SOUND for any number of queries under an injective, domain-separated "
             "hash, end to end against the map (a non-empty value is in the map, an empty value or a different query key means the "
             "requested key is absent); completeness is proved only for the canonical proof of one key (multi-key completeness of the Prove "
             "model is partial). Verify/CalculateRoot/Prove models are tied to the Go code on every case: Go proofs must equal model proofs "
             "and verify in both, every tampered proof gets the same verdict in both and, if accepted, must state only true claims.",
-    "note": "Trusted: Coq kernel + vm_compute, in-Coq SHA-256 (checked on FIPS vectors), Go harness and Python glue. NOT covered by any "
-            "proof: the Go update path and its node store (sub-tree layout, stubs, Set/Del order, re-opening) - differential testing only.",
+    "note": "Trusted: Coq kernel + vm_compute, in-Coq SHA-256 (checked on FIPS vectors), Go harness and Python glue. The refinement "
+            "theorems are about the layered Gallina model; its agreement with smt.go (bins, goroutine order, flat loops, encoding) is "
+            "checked by store-dump correspondence, not proved.",
 }
-IMPORTS = "From LE Require Import SMT.Spec SMT.Tree SMT.Verify SMT.Prove Corr.C10."
+IMPORTS = "From LE Require Import SMT.Spec SMT.Tree SMT.Verify SMT.Prove SMT.Layered Corr.C10."
 
 
 def hb(h):
@@ -56,6 +66,13 @@ def obs_term(o):
 def proof_term(r):
     return "(%d, %s, %s, %s, %s, %s)" % (r["kl"], batches(r["batches"]), clist(r["keys"], hb), clist(r["sibs"], hb),
                                       clist(r["qs"], wq), clist(r["obs"], obs_term))
+
+
+def store_term(r):
+    """layered-model tie: per batch (operations, implementation root, dump of the node store after the Update)"""
+    steps = ["(%s, %s, %s)" % (clist(b, wop), hb(root), clist(d, lambda e: "(%s, %s)" % (hb(e[0]), hb(e[1]))))
+             for b, root, d in zip(r["batches"], r["roots"], r["stores"])]
+    return "(%d, %d, [%s])" % (r["kl"], r.get("sh") or 8, "; ".join(steps))
 
 
 def balance(rs, cost, shard):
@@ -101,8 +118,32 @@ def evaluate(ck, recs):
     proofs = [r for r in proofs if not (r.get("panic") or r.get("err"))]
     roots = balance(roots, lambda r: r["kl"] * (1 + sum(len(b) for b in r["batches"])), 6)
     proofs = balance(proofs, lambda r: r["kl"] * ((1 + len(r["obs"])) * (1 + len(r["keys"])) + 4 * sum(len(b) for b in r["batches"])), 3)
+    # node-store dumps (small histories): the layered model must produce the same store after every Update
+    stores = [r for r in roots if r.get("stores") and len(r["stores"]) == len(r["batches"]) == len(r["roots"])]
+    stores = balance(stores, lambda r: r["kl"] * (1 + sum(len(b) for b in r["batches"])) * len(r["batches"]), 3)
     rr = ck.coq_eval(IMPORTS, "root_case", "check_root", [root_term(r) for r in roots], shard=6, tag="root", timeout=1700)
     rp = ck.coq_eval(IMPORTS, "proof_case", "check_proof", [proof_term(r) for r in proofs], shard=3, tag="proof", timeout=1700)
+    rs_ = ck.coq_eval(IMPORTS, "store_case", "check_store", [store_term(r) for r in stores], shard=3, tag="store", timeout=1700)
+    if rs_ is not None:
+        for r, code in zip(stores, rs_):
+            ck.count(len(r["stores"]))
+            ck.nontrivial(("store", r["kl"], r.get("sh", 0), json.dumps(r["batches"])))
+            ck.extra["store_dumps_compared"] = ck.extra.get("store_dumps_compared", 0) + len(r["stores"])
+            ck.extra["store_entries_compared"] = ck.extra.get("store_entries_compared", 0) + sum(len(d) for d in r["stores"])
+            if code != 0:
+                spec_bad = code >= 2
+                what = ("smt node store (%s, key length %d, sub-tree height %d): %s (code %d) on %s" % (
+                    r["gen"], r["kl"], r.get("sh") or 8,
+                    "the store of the implementation misses a sub-tree reachable from its root, or the trie read back through "
+                    "the store does not hash to the root" if spec_bad else
+                    "the store after an Update (set of (sub-tree root hash, encoded sub-tree)) or the root differs from the layered model",
+                    code, json.dumps({k: v for k, v in r.items() if k in ("kl", "gen", "batches", "reopen", "sh")})[:600]))
+                f = dict(kind="input", key="c10:store:%s%s:%s" % (r["gen"], ":subtree-height-%d" % r["sh"] if r.get("sh") else "",
+                                                                "spec" if spec_bad else "model"),
+                         what=what, case={k: v for k, v in r.items() if k != "stores"},
+                         theorem_or_correspondence="Corr.C10.check_store (SMT/Layered.v) vs pkg/trie/smt")
+                f["spec_violated"] = spec_bad
+                ck.failures.append(f)
     for rs, res, fn in ((roots, rr, "check_root"), (proofs, rp, "check_proof")):
         if res is None:
             continue
@@ -164,9 +205,9 @@ def run(ck):
     if not binp:
         return
     if ck.tier == "quick":
-        args = ["-nroot", "28", "-nproof", "30", "-nev", "10", "-maxobs", "28", "-nfull", "2", "-fullkl", "4"]
+        args = ["-nroot", "28", "-nproof", "30", "-nev", "10", "-maxobs", "28", "-nfull", "2", "-fullkl", "4", "-ndump", "36"]
     else:
-        args = ["-nroot", "800", "-nproof", "800", "-nev", "200", "-maxobs", "60", "-nfull", "12"]
+        args = ["-nroot", "800", "-nproof", "800", "-nev", "200", "-maxobs", "60", "-nfull", "12", "-ndump", "400"]
     recs = corpus(ck, binp)
     main = run_capture(ck, binp, args)
     if main is None:
@@ -188,7 +229,9 @@ def run(ck):
                       "(present, absent neighbours, absent random, duplicates), each with up to 30 (quick) / 60 (thorough) tamperings (root, value, query key bits, one byte moved between key and "
                       "value in both directions, bitmap, requested key, each sibling hash changed/removed/added, query dropped, forged extra "
                       "and forged deeper queries with F>T and F<T); full 8-bit sub-trees (256 keys differing in one byte, then reopen/update/"
-                      "no-op/prove); tries created and re-opened with keyLength 0. Evaluations = roots compared + verification observations; distinct = by full input.")
+                      "no-op/prove); tries created and re-opened with keyLength 0; node-store dumps after every Update of the histories with at most 30 "
+                      "operations (layered model, tree and flat variants, vs real store: entries equal, reachable sub-trees present). "
+                      "Evaluations = roots compared + verification observations + store dumps compared; distinct = by full input.")
     ck.extra["traces_validated_against_impl"] = len(recs)
     ck.assume += ["SHA-256 has no collisions on the values met (hypothesis of the soundness theorems only)",
                   "values are non-empty byte strings (the trie stores 32-byte value hashes; empty = delete)"]
@@ -205,7 +248,7 @@ def replay(ck, path):
         return ck.finish(LEVEL)
     binp = ck.go_build("c10")
     inp = ck.work + "/replay_in.jsonl"
-    open(inp, "w").write(json.dumps({k: v for k, v in case.items() if k not in ("obs", "roots", "sibs", "qs", "prodroots", "prodsibs", "prodqs", "proderr")}) + "\n")
+    open(inp, "w").write(json.dumps({k: v for k, v in case.items() if k not in ("obs", "roots", "sibs", "qs", "prodroots", "prodsibs", "prodqs", "proderr", "stores")}) + "\n")
     recs = run_capture(ck, binp, ["-in", inp], out_name="replay.jsonl")
     if recs is not None:
         ck.prove(extra_targets=["Corr/C10.vo"])
